@@ -11,14 +11,16 @@ scope that does not exist."
 
 All theorems are about the executable model `PvModel.Vowner` (metadata WriteScope / DeleteScope /
 UpdateValueOwners / MigrateValueOwner over the bank ledger with the marker send restriction and
-authz grants, plus direct bank sends), for EVERY state satisfying the invariant `Inv` — in
-particular every state reachable from the empty chain by ANY sequence of operations, with any
-markers / permissions / grants / contracts configuration — and every operation with any signer
-list.  Helper lemmas live in `PvProofs/Lemmas/Vowner*.lean`.
+authz grants, plus bank MsgSend / MsgMultiSend, marker MsgWithdraw / MsgTransfer), for EVERY state
+satisfying the invariant `Inv` — which speaks about SCOPE-TOKEN denoms only: accounts may hold any
+amounts of ordinary coins — in particular every state reachable from the empty chain or from any
+chain holding only ordinary coins by ANY sequence of operations, with any markers / permissions /
+grants / contracts configuration — and every operation with any signer list.  Helper lemmas live in `PvProofs/Lemmas/Vowner*.lean`.
 -/
 import PvProofs.Lemmas.VownerEffects
 import PvProofs.Lemmas.VownerGrants
 import PvProofs.Lemmas.VownerChecker
+import PvProofs.Lemmas.VownerFirst
 
 namespace PvProofs.C09
 open PvModel PvModel.Ledger PvModel.Vowner PvProofs.VownerL
@@ -28,10 +30,32 @@ open PvModel PvModel.Ledger PvModel.Vowner PvProofs.VownerL
 /-- Any state without tokens satisfies the invariant (whatever scopes, grants, markers,
 contracts and blocked addresses it has) — in particular the initial state of the driver. -/
 theorem inv_of_empty_ledger (s : State) (h : s.ledger = []) : Inv s := by
-  intro d
+  intro d _
   exact ⟨none, by rw [h]; exact holderIs_nil d, by simp, by simp⟩
 
 theorem inv_init : Inv {} := inv_of_empty_ledger {} rfl
+
+theorem holderIs_none_of_no_entry {l : Ledger} {d : Denom} (h : ∀ e ∈ l, e.denom ≠ d) : HolderIs l d none := by
+  induction l with
+  | nil => exact holderIs_nil d
+  | cons e t ih =>
+    have ht := ih (fun x hx => h x (List.mem_cons_of_mem _ hx))
+    have he : ¬ e.denom = d := h e (by simp)
+    refine ⟨?_, fun a => ?_⟩
+    · have := ht.1; simp at this; simp [supply, he, this]
+    · have := ht.2 a; simp at this; simp [bal, he, this]
+
+/-- **inv_of_ordinary_coins**: any state whose ledger holds ordinary (non-scope) coins only — in
+any amounts, held by any number of accounts, with whatever scopes, grants, markers — satisfies the
+invariant.  So every `…` theorem below "from any `Inv` state" covers a real chain's accounts. -/
+theorem inv_of_ordinary_coins (s : State) (h : ∀ e ∈ s.ledger, isScopeDenom e.denom = false) : Inv s := by
+  intro d hd
+  refine ⟨none, holderIs_none_of_no_entry (fun e he hc => ?_), by simp, by simp⟩
+  have := h e he; rw [hc, hd] at this; cases this
+
+/-- a state with ordinary coins spread over several accounts satisfies the invariant … -/
+example : Inv { ledger := [⟨"A", "$c", 5⟩, ⟨"B", "$c", 7⟩, ⟨"MR", "$nhash", 1000⟩] } :=
+  inv_of_ordinary_coins _ (by decide)
 
 /-- the kind and signers of an operation, as the property reads them: all signers of a metadata
 message; the sender of a bank send -/
@@ -43,7 +67,15 @@ def opEffectiveSigners (s : State) : Op → List Addr
   | .write _ _ _ _ sg | .delete _ sg | .updvo _ _ sg | .migrate _ _ sg => effectiveSigners s sg
   | .send frm _ _ => [frm]
   | .mwithdraw _ admin _ _ => [admin]
+  | .msend frm _ => [frm]
+  | .mtransfer admin _ _ _ => [admin]
   | _ => []
+
+/-- marker MsgTransfer never succeeds on a scope token (`GetMarkerByDenom` finds no marker) -/
+theorem markerTransfer_ne_ok (s : State) (ad frm to : Addr) (id : ScopeId) (s' : State) :
+    exec s (.mtransfer ad frm to id) ≠ .ok s' := by
+  simp only [exec, markerTransfer]
+  split <;> simp
 
 /-- One successful operation: the invariant is kept and every holder change is a `GoodStep`
 (consent of the old holder, deposit permission on a restricted marker) with respect to the
@@ -57,6 +89,9 @@ theorem exec_step {s s' : State} {op : Op} (hinv : Inv s) (h : exec s op = .ok s
   | migrate ex pr sg => obtain ⟨h1, h2, _⟩ := migrate_step hinv h; exact ⟨h1, h2⟩
   | send frm to ids => obtain ⟨h1, h2, _⟩ := send_step hinv h; exact ⟨h1, h2⟩
   | mwithdraw mk ad to ids => obtain ⟨h1, h2, _⟩ := mwithdraw_step hinv h; exact ⟨h1, h2⟩
+  | msend frm outs => obtain ⟨h1, h2, _⟩ := msend_step hinv h; exact ⟨h1, h2⟩
+  | mtransfer ad frm to id => exact absurd h (markerTransfer_ne_ok _ _ _ _ _ _)
+  | fund a dn n => exact fund_step hinv h _ _
   | grant gr ge mt c =>
     simp [exec] at h; subst h
     exact ⟨inv_of_ledger_scopes_eq hinv rfl rfl, goodStep_of_ledger_eq _ _ rfl⟩
@@ -80,6 +115,9 @@ theorem exec_step_signers {s s' : State} {op : Op} (hinv : Inv s) (h : exec s op
   cases op with
   | send frm to ids => exact hg
   | mwithdraw mk ad to ids => exact hg
+  | msend frm outs => exact hg
+  | mtransfer ad frm to id => exact hg
+  | fund a dn n => exact hg.mono (opEffectiveSigners_sub s _) (by simp [opKind, stepInfo])
   | write id owners ru vo sg => exact hg.mono (opEffectiveSigners_sub s _) (by simp [opKind, stepInfo])
   | delete id sg => exact hg.mono (opEffectiveSigners_sub s _) (by simp [opKind, stepInfo])
   | updvo ids vo sg => exact hg.mono (opEffectiveSigners_sub s _) (by simp [opKind, stepInfo])
@@ -108,44 +146,46 @@ theorem run_inv {s : State} (hinv : Inv s) (ops : List Op) : Inv (run s ops) := 
 
 /-! ## Clause 1 — at most one value owner, exactly one indivisible token held by that owner -/
 
-/-- **token_supply_le_one**: after any operation sequence the supply of every scope denom is 0 or 1. -/
-theorem token_supply_le_one (ops : List Op) (d : Denom) :
-    supply (run {} ops).ledger d = 0 ∨ supply (run {} ops).ledger d = 1 := by
-  obtain ⟨o, ho, _, _⟩ := run_inv inv_init ops d
-  cases o with
-  | none => left; simpa using ho.1
-  | some a => right; simpa using ho.1
-
-/-- **token_iff_owner**: after any operation sequence, for every scope: `GetScopeValueOwner`
-(= `DenomOwner`) succeeds with some `o`; if `o = some h` then `h` holds exactly 1, everybody else
-0, supply 1; if `o = none` nobody holds anything and the supply is 0.  So there is a token iff
-there is a value owner, and the token's only holder is that owner. -/
-theorem token_iff_owner (ops : List Op) (d : Denom) :
-    ∃ o, denomOwner (run {} ops).ledger d = .ok o ∧
-      supply (run {} ops).ledger d = (if o.isSome then 1 else 0) ∧
-      ∀ a, bal (run {} ops).ledger a d = if o = some a then 1 else 0 := by
-  obtain ⟨o, ho, _, _⟩ := run_inv inv_init ops d
-  exact ⟨o, denomOwner_of_holderIs ho, ho.1, ho.2⟩
-
-/-- the same from any invariant state (any markers, grants, contracts) -/
-theorem token_iff_owner_inv {s : State} (hinv : Inv s) (ops : List Op) (d : Denom) :
+/-- **token_iff_owner** — from ANY invariant state `s` (any ordinary coins in any accounts, any
+markers, grants, contracts), after any operation sequence, for every scope denom `d`:
+`GetScopeValueOwner` (= `DenomOwner`) succeeds with some `o`; if `o = some h` then `h` holds exactly
+1, everybody else 0, supply 1; if `o = none` nobody holds anything and the supply is 0.  So there is
+a token iff there is a value owner, and the token's only holder is that owner. -/
+theorem token_iff_owner_inv {s : State} (hinv : Inv s) (ops : List Op) (d : Denom) (hd : isScopeDenom d = true) :
     ∃ o, denomOwner (run s ops).ledger d = .ok o ∧
       supply (run s ops).ledger d = (if o.isSome then 1 else 0) ∧
       ∀ a, bal (run s ops).ledger a d = if o = some a then 1 else 0 := by
-  obtain ⟨o, ho, _, _⟩ := run_inv hinv ops d
+  obtain ⟨o, ho, _, _⟩ := run_inv hinv ops d hd
   exact ⟨o, denomOwner_of_holderIs ho, ho.1, ho.2⟩
 
-/-- **value_owner_lookup_never_fails**: the "denom has more than one owner" branch of
-`DenomOwner` (bank.go:37) is unreachable. -/
-theorem value_owner_lookup_never_fails (ops : List Op) (d : Denom) (e : Err) :
-    denomOwner (run {} ops).ledger d ≠ .error e := by
-  obtain ⟨o, h, _⟩ := token_iff_owner ops d
+/-- the same from the empty chain -/
+theorem token_iff_owner (ops : List Op) (d : Denom) (hd : isScopeDenom d = true) :
+    ∃ o, denomOwner (run {} ops).ledger d = .ok o ∧
+      supply (run {} ops).ledger d = (if o.isSome then 1 else 0) ∧
+      ∀ a, bal (run {} ops).ledger a d = if o = some a then 1 else 0 :=
+  token_iff_owner_inv inv_init ops d hd
+
+/-- **token_supply_le_one**: from any invariant state, after any operation sequence, the supply of
+every scope denom is 0 or 1. -/
+theorem token_supply_le_one {s : State} (hinv : Inv s) (ops : List Op) (d : Denom) (hd : isScopeDenom d = true) :
+    supply (run s ops).ledger d = 0 ∨ supply (run s ops).ledger d = 1 := by
+  obtain ⟨o, _, h, _⟩ := token_iff_owner_inv hinv ops d hd
+  cases o with
+  | none => left; simpa using h
+  | some a => right; simpa using h
+
+/-- **value_owner_lookup_never_fails**: from any invariant state the "denom has more than one
+owner" branch of `DenomOwner` (bank.go:37) is unreachable for a scope denom. -/
+theorem value_owner_lookup_never_fails {s : State} (hinv : Inv s) (ops : List Op) (d : Denom)
+    (hd : isScopeDenom d = true) (e : Err) : denomOwner (run s ops).ledger d ≠ .error e := by
+  obtain ⟨o, h, _⟩ := token_iff_owner_inv hinv ops d hd
   rw [h]; simp
 
-/-- two different accounts never both hold (part of) a scope's token -/
-theorem at_most_one_holder (ops : List Op) (d : Denom) (a b : Addr)
-    (ha : bal (run {} ops).ledger a d ≠ 0) (hb : bal (run {} ops).ledger b d ≠ 0) : a = b := by
-  obtain ⟨o, _, _, hbal⟩ := token_iff_owner ops d
+/-- **at_most_one_holder**: from any invariant state, two different accounts never both hold (part
+of) a scope's token -/
+theorem at_most_one_holder {s : State} (hinv : Inv s) (ops : List Op) (d : Denom) (hd : isScopeDenom d = true)
+    (a b : Addr) (ha : bal (run s ops).ledger a d ≠ 0) (hb : bal (run s ops).ledger b d ≠ 0) : a = b := by
+  obtain ⟨o, _, _, hbal⟩ := token_iff_owner_inv hinv ops d hd
   have h1 := hbal a; have h2 := hbal b
   by_cases hoa : o = some a
   · by_cases hob : o = some b
@@ -153,13 +193,30 @@ theorem at_most_one_holder (ops : List Op) (d : Denom) (a b : Addr)
     · simp [hob] at h2; exact absurd h2 hb
   · simp [hoa] at h1; exact absurd h1 ha
 
-/-- **no_token_without_scope**: a scope that does not exist has no token anywhere. -/
-theorem no_token_without_scope (ops : List Op) (d : ScopeId) (h : hasScope (run {} ops) d = false) :
-    supply (run {} ops).ledger d = 0 ∧ ∀ a, bal (run {} ops).ledger a d = 0 := by
-  obtain ⟨o, ho, _, hsc⟩ := run_inv inv_init ops d
+/-- **no_token_without_scope**: from any invariant state, a scope that does not exist has no token
+anywhere. -/
+theorem no_token_without_scope {s : State} (hinv : Inv s) (ops : List Op) (d : ScopeId)
+    (hd : isScopeDenom d = true) (h : hasScope (run s ops) d = false) :
+    supply (run s ops).ledger d = 0 ∧ ∀ a, bal (run s ops).ledger a d = 0 := by
+  obtain ⟨o, ho, _, hsc⟩ := run_inv hinv ops d hd
   cases o with
   | none => exact ⟨by simpa using ho.1, fun a => by simpa using ho.2 a⟩
   | some x => rw [hsc rfl] at h; cases h
+
+/-- the hypotheses are satisfiable on a chain whose accounts hold ordinary coins, with a live
+token: `A` and `B` hold `$c`, a scope is written, its token is sent on together with ordinary
+coins, a second scope is written and deleted -/
+example : ∃ s : State, Inv s ∧ bal s.ledger "A" "$c" = 5 ∧
+    bal (run s [.write "s1" [req "A"] false "A" ["A"], .fund "B" "$c" 2, .send "A" "B" ["s1", "$c"],
+      .write "s2" [req "B"] false "B" ["B"], .delete "s2" ["B"]]).ledger "B" "s1" = 1 ∧
+    bal (run s [.write "s1" [req "A"] false "A" ["A"], .fund "B" "$c" 2, .send "A" "B" ["s1", "$c"]]).ledger "B" "$c" = 10 :=
+  ⟨{ ledger := [⟨"A", "$c", 5⟩, ⟨"B", "$c", 7⟩] }, inv_of_ordinary_coins _ (by decide), by decide, by decide, by decide⟩
+
+/-- without the restriction to scope denoms the statements are false: an ordinary coin has many
+holders and a supply above 1 (so the old invariant, which asked `HolderIs` of EVERY denom, excluded
+every realistic state) -/
+example : ∃ s : State, Inv s ∧ supply s.ledger "$c" = 12 ∧ bal s.ledger "A" "$c" ≠ 0 ∧ bal s.ledger "B" "$c" ≠ 0 :=
+  ⟨{ ledger := [⟨"A", "$c", 5⟩, ⟨"B", "$c", 7⟩] }, inv_of_ordinary_coins _ (by decide), by decide, by decide, by decide⟩
 
 /-- **delete_burns**: a successful DeleteScope leaves the scope absent, its token's supply 0 and
 every balance of it 0 — whoever held it. -/
@@ -173,14 +230,17 @@ theorem delete_burns {s s' : State} (hinv : Inv s) (id : ScopeId) (signers : Lis
 operation keeps the supply of every scope denom -/
 theorem supply_changes_only_by_write_delete {s s' : State} (hinv : Inv s) (op : Op)
     (h : exec s op = .ok s') (hw : ∀ id ow ru vo sg, op ≠ .write id ow ru vo sg) (hd : ∀ id sg, op ≠ .delete id sg)
-    (d : Denom) : supply s'.ledger d = supply s.ledger d := by
+    (d : Denom) (hsd : isScopeDenom d = true) : supply s'.ledger d = supply s.ledger d := by
   cases op with
   | write id owners ru vo sg => exact absurd rfl (hw _ _ _ _ _)
   | delete id sg => exact absurd rfl (hd _ _)
-  | updvo ids vo sg => exact (updvo_step hinv h).2.2 d
-  | migrate ex pr sg => exact (migrate_step hinv h).2.2 d
+  | updvo ids vo sg => exact (updvo_step hinv h).2.2 d hsd
+  | migrate ex pr sg => exact (migrate_step hinv h).2.2 d hsd
   | send frm to ids => exact (send_step hinv h).2.2 d
   | mwithdraw mk ad to ids => exact (mwithdraw_step hinv h).2.2 d
+  | msend frm outs => exact (msend_step hinv h).2.2 d
+  | mtransfer ad frm to id => exact absurd h (markerTransfer_ne_ok _ _ _ _ _ _)
+  | fund a dn n => exact ((fundAccount_spec h).2.2 d hsd).1
   | grant gr ge mt c => simp [exec] at h; subst h; rfl
   | revoke gr ge mt => rw [(deleteGrant_eq h).1]
   | access m a ps => rw [(setAccess_eq h).1]
@@ -228,7 +288,8 @@ theorem updvo_moves_exactly_named {s s' : State} (ids : List ScopeId) (vo : Addr
 /-- MigrateValueOwner: exactly the tokens `ex` held end with `pr`; every other token stays. -/
 theorem migrate_moves_exactly_held {s s' : State} (ex pr : Addr)
     (signers : List Addr) (h : exec s (.migrate ex pr signers) = .ok s') :
-    ∀ d o, HolderIs s.ledger d o → HolderIs s'.ledger d (if o = some ex then some pr else o) := by
+    ∀ d, isScopeDenom d = true → ∀ o, HolderIs s.ledger d o →
+      HolderIs s'.ledger d (if o = some ex then some pr else o) := by
   simp only [exec] at h
   unfold migrateValueOwner at h
   split at h
@@ -241,17 +302,17 @@ theorem migrate_moves_exactly_held {s s' : State} (ex pr : Addr)
       | ok r =>
         obtain ⟨a, agents⟩ := r
         rw [hv] at h; simp only at h
-        intro d o ho
+        intro d hsd o ho
         have := moveValueOwners_exact hv h d o ho
         by_cases hc : o = some ex
-        · simpa [(mem_scopesForValueOwner ho).mpr hc, hc] using this
-        · have hn : ¬ d ∈ (scopesForValueOwner s.ledger ex).map (·.2) := fun x => hc ((mem_scopesForValueOwner ho).mp x)
+        · simpa [(mem_scopesForValueOwner ho hsd).mpr hc, hc] using this
+        · have hn : ¬ d ∈ (scopesForValueOwner s.ledger ex).map (·.2) := fun x => hc ((mem_scopesForValueOwner ho hsd).mp x)
           simpa [hn, hc] using this
 
 /-- bank MsgSend: the sender held every token it names; exactly those end with the receiver. -/
 theorem send_moves_exactly_named {s s' : State} (hinv : Inv s) (frm to : Addr) (ids : List ScopeId)
     (h : exec s (.send frm to ids) = .ok s') :
-    (∀ d ∈ ids, HolderIs s.ledger d (some frm)) ∧
+    (∀ d ∈ ids, isScopeDenom d = true → HolderIs s.ledger d (some frm)) ∧
     ∀ d o, HolderIs s.ledger d o → HolderIs s'.ledger d (if d ∈ ids then some to else o) :=
   send_effect hinv h
 
@@ -263,47 +324,47 @@ or was burned), then the step's signers authorise `h` by one of the four routes:
 has an authz grant in force to a signer for this message type; the step is `h`'s own bank
 transfer; `h` is a marker and a signer has withdraw on it. -/
 theorem owner_change_authorised {s s' : State} (hinv : Inv s) (op : Op) (h : exec s op = .ok s')
-    (d : ScopeId) (hd : Addr) (hbefore : HolderIs s.ledger d (some hd))
+    (d : ScopeId) (hsd : isScopeDenom d = true) (hd : Addr) (hbefore : HolderIs s.ledger d (some hd))
     (hafter : ¬ HolderIs s'.ledger d (some hd)) :
     Consents s (opKind op) (opSigners op) hd := by
-  obtain ⟨o', ho', _, _⟩ := (exec_step hinv h).1 d
+  obtain ⟨o', ho', _, _⟩ := (exec_step hinv h).1 d hsd
   have hne : some hd ≠ o' := fun e => hafter (e ▸ ho')
-  exact (exec_step_signers hinv h d (some hd) o' hbefore ho' hne).1 hd rfl
+  exact (exec_step_signers hinv h d hsd (some hd) o' hbefore ho' hne).1 hd rfl
 
 /-- the stronger form the code implements: only the *effective* signers count (when the first
 signer is a smart contract every other signer is ignored, signers.go:451) -/
 theorem owner_change_authorised_effective {s s' : State} (hinv : Inv s) (op : Op) (h : exec s op = .ok s')
-    (d : ScopeId) (hd : Addr) (hbefore : HolderIs s.ledger d (some hd))
+    (d : ScopeId) (hsd : isScopeDenom d = true) (hd : Addr) (hbefore : HolderIs s.ledger d (some hd))
     (hafter : ¬ HolderIs s'.ledger d (some hd)) :
     Consents s (opKind op) (opEffectiveSigners s op) hd := by
-  obtain ⟨o', ho', _, _⟩ := (exec_step hinv h).1 d
+  obtain ⟨o', ho', _, _⟩ := (exec_step hinv h).1 d hsd
   have hne : some hd ≠ o' := fun e => hafter (e ▸ ho')
-  exact ((exec_step hinv h).2 d (some hd) o' hbefore ho' hne).1 hd rfl
+  exact ((exec_step hinv h).2 d hsd (some hd) o' hbefore ho' hne).1 hd rfl
 
 /-- **deposit_authorised**: in every successful step, if `h'` holds scope `d`'s token after and did
 not before (it arrived by transfer or mint) and `h'` is a restricted marker, one of the step's
 signers has deposit permission on it. -/
 theorem deposit_authorised {s s' : State} (hinv : Inv s) (op : Op) (h : exec s op = .ok s')
-    (d : ScopeId) (hn : Addr) (hafter : HolderIs s'.ledger d (some hn))
+    (d : ScopeId) (hsd : isScopeDenom d = true) (hn : Addr) (hafter : HolderIs s'.ledger d (some hn))
     (hbefore : ¬ HolderIs s.ledger d (some hn)) :
     DepositP s (opSigners op) hn := by
-  obtain ⟨o, ho, _, _⟩ := hinv d
+  obtain ⟨o, ho, _, _⟩ := hinv d hsd
   have hne : o ≠ some hn := fun e => hbefore (e ▸ ho)
-  exact (exec_step_signers hinv h d o (some hn) ho hafter hne).2 hn rfl
+  exact (exec_step_signers hinv h d hsd o (some hn) ho hafter hne).2 hn rfl
 
 /-- contrapositive, for metadata messages: if the holder is not a marker, does not sign and has
 no grant in force to any signer for the message's type, the token stays where it is —
 whichever of the four messages is used and whoever else signs. -/
 theorem no_consent_no_change {s s' : State} (hinv : Inv s) (op : Op) (mt : MsgType)
     (hk : opKind op = .msg mt) (h : exec s op = .ok s')
-    (d : ScopeId) (hd : Addr) (hbefore : HolderIs s.ledger d (some hd))
+    (d : ScopeId) (hsd : isScopeDenom d = true) (hd : Addr) (hbefore : HolderIs s.ledger d (some hd))
     (hnosig : hd ∉ opSigners op)
     (hnogrant : ∀ g ∈ s.grants, g.granter = hd → g.mt = mt → g.grantee ∉ opSigners op)
     (hnomarker : findMarker s hd = none) :
     HolderIs s'.ledger d (some hd) := by
   apply Classical.byContradiction
   intro hafter
-  have hc := owner_change_authorised hinv op h d hd hbefore hafter
+  have hc := owner_change_authorised hinv op h d hsd hd hbefore hafter
   rw [hk] at hc
   rcases hc with h1 | ⟨g, hg, h1, h2, h3⟩ | ⟨m, hm, _⟩
   · exact hnosig h1
@@ -324,13 +385,18 @@ theorem write_needs_value_owner_consent {s s' : State} (hinv : Inv s) (id : Scop
     (hnogrant : ∀ g ∈ s.grants, g.granter = hd → g.mt = .write → g.grantee ∉ signers)
     (hnomarker : findMarker s hd = none) :
     denomOwner s'.ledger id = .ok (some hd) := by
-  obtain ⟨o, ho, _, _⟩ := hinv id
+  have hsd : isScopeDenom id = true := by
+    simp only [exec, writeScope] at h
+    cases hv : validateWriteScope s id owners rollup vo signers with
+    | error e => rw [hv] at h; simp at h
+    | ok r => exact validateWriteScope_scopeDenom hv
+  obtain ⟨o, ho, _, _⟩ := hinv id hsd
   have ho' := denomOwner_of_holderIs ho
   rw [hvo] at ho'
   injection ho' with ho'
   subst ho'
   exact denomOwner_of_holderIs
-    (no_consent_no_change hinv (.write id owners rollup vo signers) .write rfl h id hd ho hnosig hnogrant hnomarker)
+    (no_consent_no_change hinv (.write id owners rollup vo signers) .write rfl h id hsd hd ho hnosig hnogrant hnomarker)
 
 /-- the hypotheses are satisfiable with the value owner an optional party: `B` is an optional
 party and the value owner of a roll-up scope; `A` (the required party) rewrites the parties,
@@ -351,28 +417,36 @@ example : denomOwner
 
 /-- a bank send moves a token only when its holder is the sender -/
 theorem send_only_by_holder {s s' : State} (hinv : Inv s) (frm to : Addr) (ids : List ScopeId)
-    (h : exec s (.send frm to ids) = .ok s') (d : ScopeId) (hd : Addr)
+    (h : exec s (.send frm to ids) = .ok s') (d : ScopeId) (hsd : isScopeDenom d = true) (hd : Addr)
     (hbefore : HolderIs s.ledger d (some hd)) (hne : hd ≠ frm) : HolderIs s'.ledger d (some hd) := by
   apply Classical.byContradiction
   intro hafter
-  have hc := owner_change_authorised hinv _ h d hd hbefore hafter
+  have hc := owner_change_authorised hinv _ h d hsd hd hbefore hafter
   simp [opKind, opSigners, stepInfo, Consents] at hc
   exact hne hc.symm
 
-/-- environment operations (granting, revoking, changing marker permissions) move no token -/
+/-- environment operations (granting, revoking, changing marker permissions or status, ordinary
+coins arriving at an account) move no scope token -/
 theorem env_ops_move_nothing {s s' : State} (op : Op) (hk : opKind op = .env) (h : exec s op = .ok s') :
-    s'.ledger = s.ledger ∧ s'.scopes = s.scopes := by
+    s'.scopes = s.scopes ∧
+    ∀ d, isScopeDenom d = true → (supply s'.ledger d = supply s.ledger d ∧ ∀ a, bal s'.ledger a d = bal s.ledger a d) := by
+  have heq : ∀ {s s' : State}, s'.ledger = s.ledger ∧ s'.scopes = s.scopes → s'.scopes = s.scopes ∧
+      ∀ d, isScopeDenom d = true → (supply s'.ledger d = supply s.ledger d ∧ ∀ a, bal s'.ledger a d = bal s.ledger a d) :=
+    fun ⟨h1, h2⟩ => ⟨h2, fun d _ => by rw [h1]; exact ⟨rfl, fun _ => rfl⟩⟩
   cases op with
-  | grant gr ge mt c => simp [exec] at h; subst h; exact ⟨rfl, rfl⟩
-  | revoke gr ge mt => exact deleteGrant_eq h
-  | access m a ps => exact setAccess_eq h
-  | mstatus m st => exact setStatus_eq h
+  | grant gr ge mt c => simp [exec] at h; subst h; exact heq ⟨rfl, rfl⟩
+  | revoke gr ge mt => exact heq (deleteGrant_eq h)
+  | access m a ps => exact heq (setAccess_eq h)
+  | mstatus m st => exact heq (setStatus_eq h)
+  | fund a dn n => exact ⟨(fundAccount_spec h).1, (fundAccount_spec h).2.2⟩
   | write id owners ru vo sg => simp [opKind, stepInfo] at hk
   | delete id sg => simp [opKind, stepInfo] at hk
   | updvo ids vo sg => simp [opKind, stepInfo] at hk
   | migrate ex pr sg => simp [opKind, stepInfo] at hk
   | send frm to ids => simp [opKind, stepInfo] at hk
   | mwithdraw mk ad to ids => simp [opKind, stepInfo] at hk
+  | msend frm outs => simp [opKind, stepInfo] at hk
+  | mtransfer ad frm to id => simp [opKind, stepInfo] at hk
 
 /-- **messages_never_create_grants**: no message of the model creates or widens an authz
 authorization — every grant in force afterwards goes back to a grant (same granter, grantee,
@@ -429,6 +503,27 @@ theorem messages_never_create_grants {s s' : State} (hinv : Inv s) (op : Op) (hk
       · simp at h
       · (repeat' (split at h)) <;> simp at h
         all_goals (subst h; exact grantsSub_of_eq rfl)
+  | msend frm outs =>
+    simp only [exec] at h
+    unfold bankMultiSend at h
+    split at h
+    · simp at h
+    · rename_i hvalid
+      simp only [Bool.or_eq_true, decide_eq_true_eq, not_or, List.any_eq_true, not_exists, not_and,
+        Bool.not_eq_true', Bool.not_eq_false] at hvalid
+      have hnd : ∀ o ∈ outs, o.2.Nodup := fun o ho => by
+        have := hvalid.2 o ho
+        apply nodupB_iff.mp
+        cases hc : nodupB o.2 with
+        | true => rfl
+        | false => simp [hc] at this
+      split at h
+      · simp at h
+      · split at h
+        · simp at h
+        · exact grantsSub_of_eq (msendLoop_spec hnd h).1.grants
+  | mtransfer ad frm to id => exact absurd h (markerTransfer_ne_ok _ _ _ _ _ _)
+  | fund a dn n => simp [opKind, stepInfo] at hk
   | grant gr ge mt c => simp [opKind, stepInfo] at hk
   | revoke gr ge mt => simp [opKind, stepInfo] at hk
   | access m a ps => simp [opKind, stepInfo] at hk
@@ -453,7 +548,7 @@ by the message: afterwards it is gone or has fewer uses left.  (`MsgUpdateValueO
 `MsgMigrateValueOwner` do their signer check on the real state, not on a copy.) -/
 theorem authz_consent_uses_grant {s s' : State} (hinv : Inv s) (op : Op) (mt : MsgType)
     (hk : opKind op = .msg mt) (h : exec s op = .ok s')
-    (d : ScopeId) (hd : Addr) (hbefore : HolderIs s.ledger d (some hd))
+    (d : ScopeId) (hsd : isScopeDenom d = true) (hd : Addr) (hbefore : HolderIs s.ledger d (some hd))
     (hafter : ¬ HolderIs s'.ledger d (some hd))
     (hnosig : hd ∉ opSigners op) (hnomarker : findMarker s hd = none) :
     ∃ ge ∈ opSigners op, ∃ g, lookupGrant s.grants ge hd mt = some g ∧
@@ -480,7 +575,7 @@ theorem authz_consent_uses_grant {s s' : State} (hinv : Inv s) (op : Op) (mt : M
         | ok r =>
           obtain ⟨a, agents⟩ := r
           rw [hv] at h; simp only at h
-          exact voUsed_elim (moveValueOwners_use hinv hv h hbefore hafter) hnosig hnomarker
+          exact voUsed_elim (moveValueOwners_use hinv hv h hsd hbefore hafter) hnosig hnomarker
   | migrate ex pr sg =>
     simp [opKind, stepInfo] at hk; subst hk
     simp only [exec] at h
@@ -495,9 +590,12 @@ theorem authz_consent_uses_grant {s s' : State} (hinv : Inv s) (op : Op) (mt : M
         | ok r =>
           obtain ⟨a, agents⟩ := r
           rw [hv] at h; simp only at h
-          exact voUsed_elim (moveValueOwners_use hinv hv h hbefore hafter) hnosig hnomarker
+          exact voUsed_elim (moveValueOwners_use hinv hv h hsd hbefore hafter) hnosig hnomarker
   | send frm to ids => simp [opKind, stepInfo] at hk
   | mwithdraw mk ad to ids => simp [opKind, stepInfo] at hk
+  | msend frm outs => simp [opKind, stepInfo] at hk
+  | mtransfer ad frm to id => simp [opKind, stepInfo] at hk
+  | fund a dn n => simp [opKind, stepInfo] at hk
   | grant gr ge mt c => simp [opKind, stepInfo] at hk
   | revoke gr ge mt => simp [opKind, stepInfo] at hk
   | access m a ps => simp [opKind, stepInfo] at hk
@@ -509,12 +607,12 @@ authorization with one use left, one of them is in force before the message and 
 The next message signed by the same people then falls under `no_consent_no_change`. -/
 theorem one_use_grant_is_gone {s s' : State} (hinv : Inv s) (op : Op) (mt : MsgType)
     (hk : opKind op = .msg mt) (h : exec s op = .ok s')
-    (d : ScopeId) (hd : Addr) (hbefore : HolderIs s.ledger d (some hd))
+    (d : ScopeId) (hsd : isScopeDenom d = true) (hd : Addr) (hbefore : HolderIs s.ledger d (some hd))
     (hafter : ¬ HolderIs s'.ledger d (some hd))
     (hnosig : hd ∉ opSigners op) (hnomarker : findMarker s hd = none)
     (hone : ∀ ge ∈ opSigners op, ∀ g, lookupGrant s.grants ge hd mt = some g → g.count = 1) :
     ∃ ge ∈ opSigners op, (lookupGrant s.grants ge hd mt).isSome = true ∧ lookupGrant s'.grants ge hd mt = none := by
-  obtain ⟨ge, hge, g, hl, hu⟩ := authz_consent_uses_grant hinv op mt hk h d hd hbefore hafter hnosig hnomarker
+  obtain ⟨ge, hge, g, hl, hu⟩ := authz_consent_uses_grant hinv op mt hk h d hsd hd hbefore hafter hnosig hnomarker
   have h1 := hone ge hge g hl
   refine ⟨ge, hge, by rw [hl]; rfl, ?_⟩
   rcases hu with hu | hu
@@ -535,12 +633,12 @@ metadata message moves or burns the token only if one of its signers has withdra
 that marker (the marker account itself neither signs nor grants). -/
 theorem marker_owner_change_needs_withdraw {s s' : State} (hinv : Inv s) (op : Op) (mt : MsgType)
     (hk : opKind op = .msg mt) (h : exec s op = .ok s')
-    (d : ScopeId) (mk : Addr) (m : Marker) (hm : findMarker s mk = some m)
+    (d : ScopeId) (hsd : isScopeDenom d = true) (mk : Addr) (m : Marker) (hm : findMarker s mk = some m)
     (hbefore : HolderIs s.ledger d (some mk)) (hafter : ¬ HolderIs s'.ledger d (some mk))
     (hnosig : mk ∉ opSigners op)
     (hnogrant : ∀ g ∈ s.grants, g.granter = mk → g.mt = mt → g.grantee ∉ opSigners op) :
     ∃ x ∈ opSigners op, m.has x .withdraw = true := by
-  have hc := owner_change_authorised hinv op h d mk hbefore hafter
+  have hc := owner_change_authorised hinv op h d hsd mk hbefore hafter
   rw [hk] at hc
   rcases hc with h1 | ⟨g, hg, h1, h2, h3⟩ | ⟨m', hm', x, hx, hw⟩
   · exact absurd h1 hnosig
@@ -559,6 +657,244 @@ example : ∃ s', exec (run {} [.write "s1" [req "A"] false "C" ["A"], .access "
   revert this
   decide
 
+/-! ## "Whichever message is used" — every route of the extended operation set
+
+The operation set now has every message of the model that can debit an account's scope-token
+balance: the four metadata messages, bank MsgSend, bank MsgMultiSend (`InputOutputCoins`), marker
+MsgWithdraw and marker MsgTransfer.  `RouteConsent` spells out, message by message, what the
+holder's consent is. -/
+
+/-- the holder `hd`'s consent, message by message -/
+def RouteConsent (s : State) (hd : Addr) : Op → Prop
+  | .write _ _ _ _ sg => Consents s (.msg .write) sg hd
+  | .delete _ sg => Consents s (.msg .delete) sg hd
+  | .updvo _ _ sg => Consents s (.msg .updvo) sg hd
+  | .migrate _ _ sg => Consents s (.msg .migrate) sg hd
+  | .send frm _ _ => hd = frm                       -- the holder's own MsgSend
+  | .msend frm _ => hd = frm                        -- the holder's own MsgMultiSend (it is the one input)
+  | .mwithdraw mk admin _ _ =>                      -- the holder is the marker, the administrator has withdraw on it
+    hd = mk ∧ ∃ m, findMarker s mk = some m ∧ m.has admin .withdraw = true
+  | .mtransfer .. => False                          -- marker MsgTransfer never carries a scope token
+  | .fund .. | .grant .. | .revoke .. | .access .. | .mstatus .. => False
+
+/-- marker MsgTransfer cannot move a scope token: it is rejected in every state -/
+theorem marker_transfer_never_moves_scope_token (s : State) (ad frm to : Addr) (id : ScopeId) :
+    (applyOp s (.mtransfer ad frm to id)).1 = s := by
+  unfold applyOp
+  cases h : exec s (.mtransfer ad frm to id) with
+  | error e => rfl
+  | ok s1 => exact absurd h (markerTransfer_ne_ok _ _ _ _ _ _)
+
+/-- **whichever_message_consent_partial** — for EVERY operation of the extended set (four metadata
+messages, MsgSend, MsgMultiSend, marker MsgWithdraw, marker MsgTransfer, environment operations),
+any arguments, any signers, from any invariant state: if `hd` held scope `d`'s token before and does
+not hold it after, the operation is one of the consent routes and `hd` consented through it.
+
+Full statement: "whichever message of the chain is used".  PARTIAL because two further routes by
+which the bank can move a coin are not operations of this model:
+* exchange settlement (`x/exchange` `MarketSettle` / `FillBids` / `FillAsks` → `DoTransfers` →
+  bank `InputOutputCoins` with the market/admin as transfer agent): an ask order may name a scope
+  token as its asset; the holder's consent there is the signed `MsgCreateAsk` (which puts a hold on
+  the token), not a signature on the settling message;
+* quarantine release (`x/quarantine` `MsgAccept` → `SendCoins` from the quarantine funds holder):
+  only reachable when the receiver opted into quarantine, which the harness app never does.
+Both are listed in `checks/C09.json` as outside the model. -/
+theorem whichever_message_consent_partial {s s' : State} (hinv : Inv s) (op : Op) (h : exec s op = .ok s')
+    (d : ScopeId) (hsd : isScopeDenom d = true) (hd : Addr) (hbefore : HolderIs s.ledger d (some hd))
+    (hafter : ¬ HolderIs s'.ledger d (some hd)) : RouteConsent s hd op := by
+  have hc := owner_change_authorised hinv op h d hsd hd hbefore hafter
+  cases op with
+  | write id owners ru vo sg => exact hc
+  | delete id sg => exact hc
+  | updvo ids vo sg => exact hc
+  | migrate ex pr sg => exact hc
+  | send frm to ids =>
+    simp only [opKind, opSigners, stepInfo, Consents] at hc
+    simp only [List.cons.injEq, and_true] at hc
+    exact hc.symm
+  | msend frm outs =>
+    simp only [opKind, opSigners, stepInfo, Consents] at hc
+    simp only [List.cons.injEq, and_true] at hc
+    exact hc.symm
+  | mwithdraw mk ad to ids =>
+    obtain ⟨m, hm, x, hx, hw⟩ := hc
+    simp only [opSigners, stepInfo, List.mem_singleton] at hx
+    subst hx
+    -- the token left `hd`, and a marker MsgWithdraw only debits the marker it names
+    have hmk : hd = mk := by
+      apply Classical.byContradiction
+      intro hne
+      apply hafter
+      simp only [exec] at h
+      unfold markerWithdraw at h
+      split at h
+      · simp at h
+      · rename_i hvalid
+        simp only [Bool.or_eq_true, decide_eq_true_eq, not_or, Bool.not_eq_true', Bool.not_eq_false] at hvalid
+        have hnd' : ids.Nodup := nodupB_iff.mp (by simpa using hvalid.2)
+        cases hm2 : findMarker s mk with
+        | none => rw [hm2] at h; simp at h
+        | some m2 =>
+          rw [hm2] at h; simp only at h
+          (repeat' (split at h)) <;> simp at h
+          rename_i hf
+          subst h
+          have hf' : hasFunds s.ledger mk ids = true := by simpa using hf
+          obtain ⟨hsrc, hfin⟩ := holderIs_move (b := to) hnd' hf' hbefore
+          by_cases hdi : d ∈ ids
+          · have := hsrc hdi; injection this with this; exact absurd this hne
+          · simpa [hdi] using hfin
+    subst hmk
+    exact ⟨rfl, m, hm, hw⟩
+  | mtransfer ad frm to id => exact absurd h (markerTransfer_ne_ok _ _ _ _ _ _)
+  | fund a dn n => exact hc
+  | grant gr ge mt c => exact hc
+  | revoke gr ge mt => exact hc
+  | access m a ps => exact hc
+  | mstatus m st => exact hc
+
+/-- the hypotheses are satisfiable through MsgMultiSend: `C` multi-sends its two tokens to two
+receivers; a stranger's multi-send of `C`'s token is rejected -/
+example : bal (run {} [.write "s1" [req "A"] false "C" ["A"], .write "s2" [req "A"] false "C" ["A"],
+    .msend "C" [("D", ["s1"]), ("E", ["s2"])]]).ledger "D" "s1" = 1 := by decide
+example : (applyOp (run {} [.write "s1" [req "A"] false "C" ["A"]]) (.msend "B" [("D", ["s1"])])).2 = "err:funds" := by decide
+/-- … into a restricted marker only with the sender's deposit permission, per output -/
+example : (applyOp (run {} [.write "s1" [req "A"] false "C" ["A"], .write "s2" [req "A"] false "C" ["A"]])
+    (.msend "C" [("D", ["s1"]), ("MR", ["s2"])])).2 = "err:deposit" := by decide
+example : (applyOp (run {} [.write "s1" [req "A"] false "C" ["A"]]) (.mtransfer "C" "C" "D" "s1")).2 = "err:notfound" := by decide
+
+/-! ## The first value owner (token minted: none → some)
+
+`Consents` is about the CURRENT owner; a scope without a value owner has nobody to ask.  Who may
+then set the first one: only WriteScope can (the bulk messages refuse scopes without an owner, a
+bank send needs funds), and its party validation applies in full — it is never treated as "only
+the value owner changes". -/
+
+/-- **first_owner_set_only_by_write** — from any invariant state, if scope `d` had no token before
+a successful operation and `hn` holds it afterwards, then the operation is a `MsgWriteScope` for
+`d` naming `hn` as value owner, it has a signer, and — when the scope already existed — every
+party of the existing scope (on a `require_party_rollup` scope: every non-optional party) signed it
+or has an authz grant for MsgWriteScope in force to a signer.  (A scope that does not exist yet is
+created by whoever signs: the code puts no condition on the first write of a scope id,
+scope.go:497/516 only look at `existing`.)  Into a restricted marker `deposit_authorised` applies in
+addition. -/
+theorem first_owner_set_only_by_write {s s' : State} (hinv : Inv s) (op : Op) (h : exec s op = .ok s')
+    (d : ScopeId) (hsd : isScopeDenom d = true) (hn : Addr)
+    (hbefore : HolderIs s.ledger d none) (hafter : HolderIs s'.ledger d (some hn)) :
+    ∃ owners rollup signers, op = .write d owners rollup hn signers ∧ signers ≠ [] ∧
+      ∀ e, findScope s d = some e → PartiesAgree s e signers := by
+  have hsup0 : supply s.ledger d = 0 := by simpa using hbefore.1
+  have hsup1 : supply s'.ledger d = 1 := by simpa using hafter.1
+  have hkeep : (∀ id ow ru vo sg, op ≠ .write id ow ru vo sg) → (∀ id sg, op ≠ .delete id sg) → False := by
+    intro hw hdl
+    have := supply_changes_only_by_write_delete hinv op h hw hdl d hsd
+    omega
+  cases op with
+  | write id owners ru vo sg =>
+    by_cases hid : d = id
+    · subst hid
+      by_cases hvo : vo = ""
+      · subst hvo
+        have := write_without_value_owner_keeps_tokens hinv d owners ru sg h
+        rw [this] at hafter
+        cases holderIs_unique hbefore hafter
+      · have hnew := (write_effect hinv h).2.1 hvo
+        have : some vo = some hn := holderIs_unique hnew hafter
+        injection this with this; subst this
+        simp only [exec, writeScope] at h
+        cases hv : validateWriteScope s d owners ru vo sg with
+        | error e => rw [hv] at h; simp at h
+        | ok r =>
+          obtain ⟨h1, h2⟩ := validateWriteScope_first hbefore hvo hv
+          exact ⟨owners, ru, sg, rfl, h1, h2⟩
+    · have := (write_effect hinv h).2.2 d hid none hbefore
+      cases holderIs_unique this hafter
+  | delete id sg =>
+    by_cases hid : d = id
+    · subst hid
+      have := (delete_burns hinv d sg h).2.1
+      omega
+    · have := delete_effect hinv h d hid none hbefore
+      cases holderIs_unique this hafter
+  | updvo ids vo sg => exact (hkeep (by intros; simp) (by intros; simp)).elim
+  | migrate ex pr sg => exact (hkeep (by intros; simp) (by intros; simp)).elim
+  | send frm to ids => exact (hkeep (by intros; simp) (by intros; simp)).elim
+  | mwithdraw mk ad to ids => exact (hkeep (by intros; simp) (by intros; simp)).elim
+  | msend frm outs => exact (hkeep (by intros; simp) (by intros; simp)).elim
+  | mtransfer ad frm to id => exact (hkeep (by intros; simp) (by intros; simp)).elim
+  | fund a dn n => exact (hkeep (by intros; simp) (by intros; simp)).elim
+  | grant gr ge mt c => exact (hkeep (by intros; simp) (by intros; simp)).elim
+  | revoke gr ge mt => exact (hkeep (by intros; simp) (by intros; simp)).elim
+  | access m a ps => exact (hkeep (by intros; simp) (by intros; simp)).elim
+  | mstatus m st => exact (hkeep (by intros; simp) (by intros; simp)).elim
+
+/-- the hypotheses are satisfiable on an existing scope: `s1` (parties `A`, `B`) is written
+without a value owner; a later write signed by both parties names `C`; signed by `A` alone it is
+rejected, and so is a stranger's -/
+example : bal (run {} [.write "s1" [req "A", req "B"] false "" ["A"],
+    .write "s1" [req "A", req "B"] false "C" ["A", "B"]]).ledger "C" "s1" = 1 := by decide
+example : (applyOp (run {} [.write "s1" [req "A", req "B"] false "" ["A"]])
+    (.write "s1" [req "A", req "B"] false "C" ["A"])).2 = "err:sig" := by decide
+example : (applyOp (run {} [.write "s1" [req "A", req "B"] false "" ["A"]])
+    (.write "s1" [req "A", req "B"] false "C" ["C"])).2 = "err:sig" := by decide
+/-- … and on a scope id nobody has written yet any signer may create the scope with any value owner -/
+example : bal (run {} [.write "s1" [req "A"] false "C" ["D"]]).ledger "C" "s1" = 1 := by decide
+
+/-! ## The two queries agree with the token
+
+`queryScopeValueOwner` (the `Scope` query: metadata store + bank `DenomOwner`) and
+`queryValueOwnership` (the `ValueOwnership` query: a prefix walk over ONE account's balances) are
+computed by the model the way the Go code computes them — neither is defined from the dump's
+holder column. -/
+
+/-- **queries_agree_with_token** — in every invariant state (so after any operation sequence),
+for every scope id `d` with token holder `o`:
+* the `Scope` query reports `o` as value owner when the scope record exists, and nothing otherwise;
+* account `a`'s `ValueOwnership` answer lists `d` exactly when `a` is the holder; so at most one
+  account lists it, and none when there is no token;
+* every entry of any `ValueOwnership` answer is a scope denom the account holds one unit of. -/
+theorem queries_agree_with_token {s : State} (hinv : Inv s) (d : ScopeId) (hsd : isScopeDenom d = true) :
+    ∃ o, HolderIs s.ledger d o ∧
+      queryScopeValueOwner s d = (if hasScope s d = true then o.getD "" else "") ∧
+      (∀ a, d ∈ queryValueOwnership s a ↔ o = some a) ∧
+      listedBy s d = o.toList := by
+  obtain ⟨o, ho, _, _⟩ := hinv d hsd
+  refine ⟨o, ho, queryScopeValueOwner_of_holderIs ho, mem_queryValueOwnership ho hsd, ?_⟩
+  rw [listedBy_of_holderIs ho hsd]
+  cases o <;> rfl
+
+/-- whatever an account's `ValueOwnership` answer lists is a scope whose token that account holds -/
+theorem value_ownership_lists_only_held {s : State} (hinv : Inv s) (a : Addr) (d : ScopeId)
+    (h : d ∈ queryValueOwnership s a) : isScopeDenom d = true ∧ bal s.ledger a d = 1 ∧ hasScope s d = true := by
+  have hsd := scopesForValueOwner_scopeDenom h
+  obtain ⟨o, ho, _, hsc⟩ := hinv d hsd
+  have := (mem_queryValueOwnership ho hsd a).mp h
+  subst this
+  exact ⟨hsd, by simpa using ho.2 a, hsc rfl⟩
+
+/-- the checker's `queries_disagree_with_token` clause, run on the model's separately computed
+query columns, never fires -/
+theorem queries_ok {s : State} (hinv : Inv s) (d : ScopeId) (hsd : isScopeDenom d = true) :
+    queriesOk (observeScope s d) = true := by
+  obtain ⟨o, ho, _, hsc⟩ := hinv d hsd
+  unfold queriesOk observeScope
+  simp only [holdersOf_of_holderIs ho, denomOwner_of_holderIs ho,
+    queryScopeValueOwner_of_holderIs ho, listedBy_of_holderIs ho hsd]
+  cases o <;> simp
+
+private def qsDemo : State := run { ledger := [⟨"C", "$c", 5⟩, ⟨"D", "$c", 7⟩] }
+  [.write "s1" [req "A"] false "C" ["A"], .send "C" "D" ["s1", "$c"]]
+private def qsBad : State := { scopes := [⟨"s1", [req "A"], false⟩], ledger := [⟨"C", "s1", 1⟩, ⟨"D", "s1", 1⟩] }
+
+/-- non-trivial instance: the token sits with `D` among accounts holding ordinary coins; `D`'s
+ValueOwnership lists `s1` and not the ordinary coin, `C`'s lists nothing, the Scope query says `D` -/
+example : queryValueOwnership qsDemo "D" = ["s1"] ∧ queryValueOwnership qsDemo "C" = [] ∧
+    queryScopeValueOwner qsDemo "s1" = "D" ∧ listedBy qsDemo "s1" = ["D"] := by decide
+/-- the two queries are really computed differently: on a (non-invariant) ledger where two accounts
+hold the denom, both ValueOwnership answers list the scope while the Scope query reports nobody -/
+example : listedBy qsBad "s1" = ["C", "D"] ∧ queryScopeValueOwner qsBad "s1" = "" ∧
+    queriesOk (observeScope qsBad "s1") = false := by decide
+
 /-! ## The checker run on the implementation is the conjunction of the above
 
 `stepClause` (PvModel/VownerSpec.lean) is what the driver evaluates on two consecutive dumps of
@@ -567,13 +903,14 @@ the IMPLEMENTATION and the operation between them.  On the model it never fires.
 /-- **step_ok**: for every invariant state, every operation with any arguments and signers, and
 every set of scope ids looked at, the property checker finds nothing wrong with the model's step —
 accepted or rejected.  (The driver runs the same `stepClause` on the implementation's dumps.) -/
-theorem step_ok {s : State} (hinv : Inv s) (op : Op) (ids : List ScopeId) :
+theorem step_ok {s : State} (hinv : Inv s) (op : Op) (ids : List ScopeId)
+    (hids : ∀ id ∈ ids, isScopeDenom id = true) :
     stepClause (observe s ids)
       (stepInfo op (match exec s op with | .ok _ => true | .error _ => false))
       (observe (applyOp s op).1 ids) = none := by
   have hinv' := applyOp_inv hinv op
   unfold stepClause
-  rw [tokens_ok hinv' ids]
+  rw [tokens_ok hinv' ids hids]
   simp only
   cases hex : exec s op with
   | error e =>
@@ -584,8 +921,8 @@ theorem step_ok {s : State} (hinv : Inv s) (op : Op) (ids : List ScopeId) :
     have hcons : (observe s ids).scopes.all (consentOne (observe s ids) (stepInfo op false)) = true := by
       simp only [observe, List.all_eq_true, List.mem_map]
       rintro o ⟨id, hid, rfl⟩
-      obtain ⟨o1, ho1, h1, _⟩ := observeScope_of_inv hinv id
-      have := preHolder_observe hinv hid ho1
+      obtain ⟨o1, ho1, h1, _⟩ := observeScope_of_inv hinv id (hids id hid)
+      have := preHolder_observe hinv hid (hids id hid) ho1
       unfold observe at this
       have hid' : (observeScope s id).id = id := rfl
       unfold consentOne
@@ -593,8 +930,8 @@ theorem step_ok {s : State} (hinv : Inv s) (op : Op) (ids : List ScopeId) :
     have hdep : (observe s ids).scopes.all (depositOne (observe s ids) (stepInfo op false)) = true := by
       simp only [observe, List.all_eq_true, List.mem_map]
       rintro o ⟨id, hid, rfl⟩
-      obtain ⟨o1, ho1, h1, _⟩ := observeScope_of_inv hinv id
-      have := preHolder_observe hinv hid ho1
+      obtain ⟨o1, ho1, h1, _⟩ := observeScope_of_inv hinv id (hids id hid)
+      have := preHolder_observe hinv hid (hids id hid) ho1
       unfold observe at this
       have hid' : (observeScope s id).id = id := rfl
       unfold depositOne
@@ -606,8 +943,8 @@ theorem step_ok {s : State} (hinv : Inv s) (op : Op) (ids : List ScopeId) :
     have hgu : (observe s ids).scopes.all (grantUseOne (observe s ids) (stepInfo op false) (observe s ids)) = true := by
       simp only [observe, List.all_eq_true, List.mem_map]
       rintro o ⟨id, hid, rfl⟩
-      obtain ⟨o1, ho1, h1, _⟩ := observeScope_of_inv hinv id
-      have := preHolder_observe hinv hid ho1
+      obtain ⟨o1, ho1, h1, _⟩ := observeScope_of_inv hinv id (hids id hid)
+      have := preHolder_observe hinv hid (hids id hid) ho1
       unfold observe at this
       have hid' : (observeScope s id).id = id := rfl
       unfold grantUseOne
@@ -626,9 +963,9 @@ theorem step_ok {s : State} (hinv : Inv s) (op : Op) (ids : List ScopeId) :
     have hcons : (observe s1 ids).scopes.all (consentOne (observe s ids) (stepInfo op true)) = true := by
       simp only [observe, List.all_eq_true, List.mem_map]
       rintro o ⟨id, hid, rfl⟩
-      obtain ⟨o0, ho0, _, _⟩ := observeScope_of_inv hinv id
-      obtain ⟨o1, ho1, h1, _⟩ := observeScope_of_inv hinv' id
-      have hpre := preHolder_observe hinv hid ho0
+      obtain ⟨o0, ho0, _, _⟩ := observeScope_of_inv hinv id (hids id hid)
+      obtain ⟨o1, ho1, h1, _⟩ := observeScope_of_inv hinv' id (hids id hid)
+      have hpre := preHolder_observe hinv hid (hids id hid) ho0
       unfold observe at hpre
       unfold consentOne
       have hid' : (observeScope s1 id).id = id := rfl
@@ -638,7 +975,7 @@ theorem step_ok {s : State} (hinv : Inv s) (op : Op) (ids : List ScopeId) :
       · cases o0 with
         | none => simp
         | some a =>
-          have := (hgood id (some a) o1 ho0 ho1 heq).1 a rfl
+          have := (hgood id (hids id hid) (some a) o1 ho0 ho1 heq).1 a rfl
           have hh := authorises_of_consents (s := s) (ids := ids) (st := stepInfo op true) (h := a)
             (by rw [hkind, hsig]; exact this)
           unfold observe at hh
@@ -646,9 +983,9 @@ theorem step_ok {s : State} (hinv : Inv s) (op : Op) (ids : List ScopeId) :
     have hdep : (observe s1 ids).scopes.all (depositOne (observe s ids) (stepInfo op true)) = true := by
       simp only [observe, List.all_eq_true, List.mem_map]
       rintro o ⟨id, hid, rfl⟩
-      obtain ⟨o0, ho0, _, _⟩ := observeScope_of_inv hinv id
-      obtain ⟨o1, ho1, h1, _⟩ := observeScope_of_inv hinv' id
-      have hpre := preHolder_observe hinv hid ho0
+      obtain ⟨o0, ho0, _, _⟩ := observeScope_of_inv hinv id (hids id hid)
+      obtain ⟨o1, ho1, h1, _⟩ := observeScope_of_inv hinv' id (hids id hid)
+      have hpre := preHolder_observe hinv hid (hids id hid) ho0
       unfold observe at hpre
       unfold depositOne
       have hid' : (observeScope s1 id).id = id := rfl
@@ -658,7 +995,7 @@ theorem step_ok {s : State} (hinv : Inv s) (op : Op) (ids : List ScopeId) :
       · cases o1 with
         | none => simp
         | some b =>
-          have := (hgood id o0 (some b) ho0 ho1 heq).2 b rfl
+          have := (hgood id (hids id hid) o0 (some b) ho0 ho1 heq).2 b rfl
           have hh := depositAuthorised_of (s := s) (ids := ids) (st := stepInfo op true) (h := b)
             (by rw [hsig]; exact this)
           unfold observe at hh
@@ -680,6 +1017,9 @@ theorem step_ok {s : State} (hinv : Inv s) (op : Op) (ids : List ScopeId) :
       | migrate _ _ _ => simp [deleteOne, stepInfo]
       | send _ _ _ => simp [deleteOne, stepInfo]
       | mwithdraw _ _ _ _ => simp [deleteOne, stepInfo]
+      | msend _ _ => simp [deleteOne, stepInfo]
+      | mtransfer _ _ _ _ => simp [deleteOne, stepInfo]
+      | fund _ _ _ => simp [deleteOne, stepInfo]
       | grant _ _ _ _ => simp [deleteOne, stepInfo]
       | revoke _ _ _ => simp [deleteOne, stepInfo]
       | access _ _ _ => simp [deleteOne, stepInfo]
@@ -687,9 +1027,9 @@ theorem step_ok {s : State} (hinv : Inv s) (op : Op) (ids : List ScopeId) :
     have hgu : (observe s1 ids).scopes.all (grantUseOne (observe s ids) (stepInfo op true) (observe s1 ids)) = true := by
       simp only [observe, List.all_eq_true, List.mem_map]
       rintro o ⟨id, hid, rfl⟩
-      obtain ⟨o0, ho0, _, _⟩ := observeScope_of_inv hinv id
-      obtain ⟨o1, ho1, h1, _⟩ := observeScope_of_inv hinv' id
-      have hpre := preHolder_observe hinv hid ho0
+      obtain ⟨o0, ho0, _, _⟩ := observeScope_of_inv hinv id (hids id hid)
+      obtain ⟨o1, ho1, h1, _⟩ := observeScope_of_inv hinv' id (hids id hid)
+      have hpre := preHolder_observe hinv hid (hids id hid) ho0
       unfold observe at hpre
       have hid' : (observeScope s1 id).id = id := rfl
       unfold grantUseOne
@@ -709,7 +1049,7 @@ theorem step_ok {s : State} (hinv : Inv s) (op : Op) (ids : List ScopeId) :
                 simp [hm']
               | none =>
                 have hafter : ¬ HolderIs s1.ledger id (some a) := fun hh => heq (holderIs_unique hh ho1)
-                obtain ⟨ge, hge, g, hl, hu⟩ := authz_consent_uses_grant hinv op mt hkm hex id a ho0 hafter hsig hm
+                obtain ⟨ge, hge, g, hl, hu⟩ := authz_consent_uses_grant hinv op mt hkm hex id (hids id hid) a ho0 hafter hsig hm
                 simp only [Bool.or_eq_true]
                 right; right
                 simp only [grantsTo, List.any_eq_true, List.mem_filterMap]
@@ -718,14 +1058,18 @@ theorem step_ok {s : State} (hinv : Inv s) (op : Op) (ids : List ScopeId) :
       · rfl
     simp [hrej, hcons, hdep, hdel, hgu]
 
-/-- **all_steps_ok**: along ANY operation sequence from the empty chain every single step passes
+/-- **all_steps_ok**: along ANY operation sequence from any invariant state every single step passes
 the property checker. -/
-theorem all_steps_ok (ops : List Op) (ids : List ScopeId) :
+theorem all_steps_ok {s : State} (hinv : Inv s) (ops : List Op) (ids : List ScopeId)
+    (hids : ∀ id ∈ ids, isScopeDenom id = true) :
     ∀ (pre : List Op) (op : Op) (post : List Op), ops = pre ++ op :: post →
-      stepClause (observe (run {} pre) ids)
-        (stepInfo op (match exec (run {} pre) op with | .ok _ => true | .error _ => false))
-        (observe (applyOp (run {} pre) op).1 ids) = none :=
-  fun pre op _ _ => step_ok (run_inv inv_init pre) op ids
+      stepClause (observe (run s pre) ids)
+        (stepInfo op (match exec (run s pre) op with | .ok _ => true | .error _ => false))
+        (observe (applyOp (run s pre) op).1 ids) = none :=
+  fun pre op _ _ => step_ok (run_inv hinv pre) op ids hids
+
+/-- the scope ids the driver dumps are scope denoms -/
+example : ∀ id ∈ ["s1", "s2", "s3", "s4"], isScopeDenom id = true := by decide
 
 /-! ## Non-vacuity: each route really moves a token, and lack of consent really blocks it -/
 
